@@ -28,3 +28,6 @@ mk("C01-regexp-from-earlier-eval-spurious-timeout", "C01.early", "regex",
    params={"rx_family": "nested_plus", "rx_api": "test", "rx_build": "setup_ctor", "rx_n": 26, "rx_mode": "loop"})
 mk("C01-eval-tree-never-polled", "C01.hang", "eval_tree", T_work=20000)
 mk("C01-instanceof-on-cyclic-prototype-chain-hangs", "C01.hang", "proto_cycle", T_work=5000)
+mk("C01-native-push-callback-extends-own-iteration", "C01.hang", "native_cb_grow", T_work=5000,
+   params={"ng_method": "forEach", "ng_fn": "push"})
+mk("C01-pow-on-unbounded-integers", "C01.hang", "pow_tower", T_work=5000, params={"pt_base": "3", "pt_op": "** 3"})
